@@ -47,7 +47,7 @@ CLAIMS = {
             "Trusted: TLC. Exhaustive only inside the box (area <= 12); larger sizes are sampled. Unused column bits after set-all are unconstrained.",
             "DESIGN.md section 5 C06", TECH_MGV),
     "C07": ("model_checking",
-            "The layout formulae are TLA+ definitions; TLC checks new-page shape, index injectivity/range, bit order and from_bytes acceptance for every size of the box and the 11 real sizes; a TLAPS proof (spec/proofs/PixelIndex.tla, 100 obligations, run in the thorough tier and bound to the model by MC_Layout!SameDefs) establishes injectivity, range and padding for ALL sizes; expected images are replayed into the real Page; pages, single-pixel images and from_bytes verdicts recorded from the real code (all ids, every size 0..48 x 0..33 in thorough, large sizes) are validated by TLC against the formulae.",
+            "The layout formulae are TLA+ definitions; TLC checks new-page shape, index injectivity/range, bit order and from_bytes acceptance for every size of the box and the 11 real sizes; a TLAPS proof (spec/proofs/PixelIndex.tla, 100 obligations, run in the thorough tier and bound to the model by MC_Layout!SameDefs) establishes injectivity, range and padding for ALL sizes; expected images are replayed into the real Page; pages, single-pixel images and from_bytes verdicts recorded from the real code (all ids, every size 0..48 x 0..33 in thorough, large sizes) are validated by TLC against the formulae. Pages beyond TLC's 32-bit integers (4 GiB and more; heights up to 2^32-1) are validated with two-limb forms of the same formulae (Page!WideChunks/WideIndex/Tall*), which MC_Layout checks equal to the plain ones on the box and spec/proofs/WideArith.tla (TLAPS, 68 obligations) proves equal for ALL sizes.",
             "Trusted: TLC, the transcription of the documented layout.",
             "DESIGN.md section 5 C07", TECH_MGV),
     "C08": ("model_checking",
@@ -55,7 +55,7 @@ CLAIMS = {
             "by configure / configure-if-needed and bounded sequences of send-pages, show, load-next and re-configure, one exchange per step, with "
             "the C08 postconditions as invariants at every return (1.1 M states per flip style in thorough). TLC's witness paths then put a real "
             "VirtualSign into every distinct model state (plus random-walk states on real sizes), the real Sign runs a program of calls on it for all "
-            "11 types x both flip styles x addresses, and TLC evaluates the same postconditions on the recorded outcomes and projections.",
+            "11 types x both flip styles x addresses, and TLC evaluates the same postconditions on the recorded outcomes and projections. Bystander signs (fresh or left mid-transfer, behind or in front of the controlled sign) share the bus; sends whose chunk total is just below, at and above 2^16 are recorded as digests (pages held, first differing page).",
             "Trusted: TLC; postconditions are evaluated on state()/sign_type()/pages() of the real VirtualSign. Prior states bounded as in C13.",
             "DESIGN.md section 5 C08", TECH_MGV),
     "C09": ("model_checking",
